@@ -166,7 +166,8 @@ def requires_hold(ctx, Dz, s, requires, cmp_sigs=None, found=None):
                 # `x.is_empty()` may be written `x.len() == 0` / `0 == x.len()` / `x.len() != 0`: the comparison of a length with 0
                 # counts as the emptiness test
                 for (bid, i, op, a, bb) in Dz.cmps(b):
-                    if op in ('Eq', 'Ne') and ((a.endswith('.len()') and bb == '0_usize') or (bb.endswith('.len()') and a == '0_usize')):
+                    if (op in ('Eq', 'Ne') and ((a.endswith('.len()') and bb == '0_usize') or (bb.endswith('.len()') and a == '0_usize'))) \
+                            or (op in ('Gt', 'Le') and a.endswith('.len()') and bb == '0_usize') or (op in ('Lt', 'Ge') and bb.endswith('.len()') and a == '0_usize'):
                         if c.dominates(bid, blk):
                             ok = True
                             break
